@@ -558,6 +558,13 @@ let run_case (line : string) =
     (try run_dfield id fields with Failure m -> Printf.printf "%s\tBADCASE\t%s\n" id m)
   | L [A "grouphelp"; A id; d; e] ->
     Printf.printf "%s\tGROUPHELP\t%s\n" id (match group_help_of (opt_hex d) (opt_hex e) with Some h -> hex_of_bytes h | None -> "-")
+  | L [A "optionshelp"; A id; doc; d; h; f] ->
+    (try
+       let o = function A "-" -> None | x -> Some (dchars x) in
+       let ((dd, hh), ff) = options_help (o doc) (o d) (o h) (o f) in
+       let sh = function Some b -> hex_of_chars b | None -> "-" in
+       Printf.printf "%s\tOPTHELP\t%s\t%s\t%s\n" id (sh dd) (sh hh) (sh ff)
+     with Failure m -> Printf.printf "%s\tBADCASE\t%s\n" id m)
   | L [A "kebab"; A id; h] -> Printf.printf "%s\tKEBAB\t%s\n" id (hex_of_chars (to_kebab_case (dchars h)))
   | L [A "unitnames"; A id; h; L (A "names" :: names)] ->
     (match unit_variant_names (dchars h) (nameanns_of names) with
@@ -617,9 +624,15 @@ let run_case (line : string) =
            | _ -> print_outcome id (outcome_of r))
         | [A "comp"; A rev] ->
           let co = coptions_of_sexp opts in
-          (match c_run_inner feat env co name argv (Some (nat_of_int (int_of_string rev))) with
+          let rv = Some (nat_of_int (int_of_string rev)) in
+          (match c_run_inner feat env co name argv rv with
            | OutCompletion t -> Printf.printf "%s\tCOMP\t%s\n" id (hex_of_bytes t)
-           | other -> print_outcome id other)
+           | other -> print_outcome id other);
+          (* the premises of C14_request_never_value_or_error on this case: request on with a known revision, an item with
+             valid UTF-8 text on the line *)
+          let ((s0, k0), _) = c_initial_state co name argv rv in
+          let known = (match k0 with Some c -> List.mem (int_of_nat c.cs_rev) [0; 1; 7; 8; 9] | None -> false) in
+          Printf.printf "%s_t\tPREM\t%d\n" id (if known && lit_items s0 <> [] then 1 else 0)
         | [A "tokens"] ->
           let (st, amb) = initial_state o name argv in
           let show = function
